@@ -14,6 +14,7 @@ CONSTANTS W,            \* terminal width
           Flags,        \* message-level flags of flagged single-line writes ({} = none)
           Verbs,        \* verbosities a section may be set to ({} = never)
           QuietOps,     \* BOOLEAN: set_quiet on single sections
+          Indents,      \* indentations a section may be given ({} = never)
           MaxSections, Depth
 
 VARIABLES hist, nextId
@@ -38,8 +39,10 @@ LensSmall == {2, 5}
 NoFlags == {}
 FlagsQ == {1, 4}
 VerbsQ == {0, 1}
+IndentsQ == {0, 3}
 PairsNone == {}
 LensOne == {5}
+LensGate == {0, 5}
 LensMid == {2, 5, 9}
 PairsSmall == {<<0, 9>>}
 LensW7 == {0, 3, 7, 8, 15}
@@ -66,7 +69,9 @@ HWriteF == \E i \in 1..Len(secs), f \in Flags : H(WriteLineFlag(i, <<Line(nextId
 HQuiet == \E i \in 1..Len(secs) : QuietOps /\ H(SetQuiet(i, ~gate[i].quiet) /\ UNCHANGED nextId)
 HVerb == \E i \in 1..Len(secs), v \in Verbs : v # gate[i].verb /\ H(SetVerbosity(i, v) /\ UNCHANGED nextId)
 
-HNext == HCreate \/ HWrite1 \/ HWrite2 \/ HOverwrite \/ HClear \/ HClearN \/ HWriteF \/ HQuiet \/ HVerb
+HIndent == \E i \in 1..Len(secs), k \in Indents : k # gate[i].ind /\ H(SetIndent(i, k) /\ UNCHANGED nextId)
+
+HNext == HCreate \/ HWrite1 \/ HWrite2 \/ HOverwrite \/ HClear \/ HClearN \/ HWriteF \/ HQuiet \/ HVerb \/ HIndent
 HSpec == HInit /\ [][HNext]_hvars
 
 \* hist is a history variable only: two states that differ in hist alone behave alike
